@@ -105,6 +105,10 @@ func RunJobs(p *Program, jobs []*Job, n int, backend string, wantFixtures bool, 
 					continue // time budget of the run used up: the job is reported as not run
 				}
 				results[i] = w.Explore(jobs[i], wantFixtures)
+				if results[i] != nil && results[i].CutByBudget && results[i].NViol == 0 {
+					results[i] = nil
+					continue
+				}
 				if os.Getenv("VERIF_PROGRESS") != "" {
 					r := results[i]
 					fmt.Fprintf(os.Stderr, "job %s %q: paths=%d done=%d skipped=%d aborted=%d viol=%d forks=%d queries=%d %.1fs trunc=%v bound=%d\n", jobs[i].ID, jobs[i].Params["path"],
